@@ -234,6 +234,97 @@ Section OperatorNorm.
   Qed.
 End OperatorNorm.
 
+(** ** The early exit is taken ONLY on the kernel, and the estimate is 0 only then *)
+Section EarlyExit.
+  Context {S1 S2 : InnerSpace}.
+  Variable A : @E S1 -> @E S2.
+  Variable AH : @E S2 -> @E S1.
+  Hypothesis adj : IsAdj A AH.
+  Let B := fun x => AH (A x).
+
+  (** the test [normAv == 0.0] holds iff A^H A v is exactly the zero vector *)
+  Lemma norm_zero_iff (w : @E S1) : norm w = 0 <-> w = vzero.
+  Proof.
+    split; intros H.
+    - apply nsq_0. rewrite <- norm_sq, H. lra.
+    - subst. unfold norm. rewrite nsq_vzero. apply sqrt_0.
+  Qed.
+
+  Theorem pi_no_exit_off_kernel n v mu :
+    B v <> vzero ->
+    pi_loop B (Datatypes.S n) v mu = pi_loop B n (vscale (/ norm (B v)) (B v)) (rq B v).
+  Proof.
+    intros H. cbn [pi_loop]. destruct (Req_EM_T (norm (B v)) 0) as [E0|E0].
+    - apply norm_zero_iff in E0. contradiction.
+    - reflexivity.
+  Qed.
+
+  Theorem pi_exit_on_kernel n v mu : B v = vzero -> pi_loop B (Datatypes.S n) v mu = (0, vzero).
+  Proof.
+    intros H. cbn [pi_loop]. rewrite H. destruct (Req_EM_T (norm vzero) 0) as [E0|E0]; auto.
+    exfalso. apply E0. apply norm_zero_iff. reflexivity.
+  Qed.
+
+  Lemma AH_zero : AH vzero = vzero.
+  Proof.
+    apply nsq_0. unfold nsq. rewrite <- adj. apply ip_0_r.
+  Qed.
+
+  (** off the kernel the Rayleigh quotient of A^H A is strictly positive *)
+  Theorem gram_rq_pos v : v <> vzero -> B v <> vzero -> 0 < rq B v.
+  Proof.
+    intros Hv HB. unfold rq, B. rewrite (gram_form A AH adj).
+    assert (A v <> vzero) by (intro Z; apply HB; unfold B; rewrite Z; apply AH_zero).
+    apply Rdiv_lt_0_compat; apply nsq_pos_nz; auto.
+  Qed.
+
+  Lemma scaled_nonzero (w : @E S1) : w <> vzero -> vscale (/ norm w) w <> vzero.
+  Proof.
+    intros Hw Z. assert (N : nsq (vscale (/ norm w) w) = 0) by (rewrite Z; apply nsq_vzero).
+    rewrite nsq_scale in N. pose proof (norm_sq w) as Q. rewrite <- Q in N.
+    assert (norm w <> 0) by (intro; apply Hw; apply norm_zero_iff; auto).
+    assert (/ norm w * norm w = 1) by (apply Rinv_l; auto). nra.
+  Qed.
+
+  (** the value returned after >= 1 iteration is 0 ONLY if some iterate was a non-zero kernel
+      vector (exact early exit); in particular never for an operator with trivial kernel *)
+  Lemma pi_zero_only_on_kernel_gen n : forall v mu,
+    v <> vzero -> fst (pi_loop B n v mu) = 0 -> mu = 0 \/ exists w, w <> vzero /\ B w = vzero.
+  Proof.
+    induction n as [|n IH]; intros v mu Hv H; cbn [pi_loop fst] in H; auto.
+    destruct (Req_EM_T (norm (B v)) 0) as [E0|E0].
+    - right. exists v. split; auto. apply norm_zero_iff; auto.
+    - assert (HB : B v <> vzero) by (intro Z; apply E0; apply norm_zero_iff; auto).
+      destruct (IH _ _ (scaled_nonzero _ HB) H) as [Hz|Hex]; auto.
+      exfalso. pose proof (gram_rq_pos v Hv HB) as P. unfold rq in P. fold B in Hz. lra.
+  Qed.
+
+  Theorem pi_zero_only_on_kernel n v mu0 :
+    v <> vzero -> fst (pi_loop B (Datatypes.S n) v mu0) = 0 -> exists w, w <> vzero /\ B w = vzero.
+  Proof.
+    intros Hv H. destruct (Req_EM_T (norm (B v)) 0) as [E0|E0].
+    - exists v. split; auto. apply norm_zero_iff; auto.
+    - assert (HB : B v <> vzero) by (intro Z; apply E0; apply norm_zero_iff; auto).
+      rewrite pi_no_exit_off_kernel in H by auto.
+      destruct (pi_zero_only_on_kernel_gen n _ _ (scaled_nonzero _ HB) H) as [Hz|Hex]; auto.
+      exfalso. pose proof (gram_rq_pos v Hv HB). lra.
+  Qed.
+
+  Corollary pi_positive_trivial_kernel n v mu0 :
+    (forall w, B w = vzero -> w = vzero) -> v <> vzero -> 0 < fst (pi_loop B (Datatypes.S n) v mu0).
+  Proof.
+    intros K Hv.
+    destruct (Req_dec (fst (pi_loop B (Datatypes.S n) v mu0)) 0) as [Z|Z].
+    { destruct (pi_zero_only_on_kernel n v mu0 Hv Z) as (w & Hw & Hk). exfalso. apply Hw, K, Hk. }
+    assert (HB : B v <> vzero) by (intro Q; apply Hv, K, Q).
+    rewrite pi_no_exit_off_kernel in * by auto.
+    destruct (pi_loop_value B n _ (rq B v) (scaled_nonzero _ HB)) as [G|[G|[w [Hw G]]]].
+    - rewrite G. apply gram_rq_pos; auto.
+    - contradiction.
+    - rewrite G. apply gram_rq_pos; auto.
+  Qed.
+End EarlyExit.
+
 (** non-vacuity: the class is inhabited (R as a one-dimensional space), and a non-trivial
     self-adjoint PSD linear operator exists on it *)
 #[local] Program Instance R1 : InnerSpace := {|
